@@ -6,7 +6,7 @@ ID = "C14"
 THEOREMS = "Properties/C14.v"
 HARNESS = ["c14"]
 LEVEL = "proof"
-READY = False
+READY = True
 TRUSTED_BASE = [
     "Coq 8.16.1 kernel (coqc, full .vo build); vm_compute used in the refutation witnesses, the non-vacuity Examples and the correspondence evaluation",
     "no axioms: Print Assumptions reports 'Closed under the global context' for every theorem of Properties/C14.v",
@@ -340,9 +340,40 @@ def gen_case(rng, tier):
         else:
             inp.append({"typ": 1, "key": k})
     n = rng.randint(120, 420) if tier == "quick" else rng.randint(150, 900)
-    return {"nr": nr, "nc": nc, "ef": ef, "input": inp,
+    case = {"nr": nr, "nc": nc, "ef": ef, "input": inp,
             "walk": {"seed": rng.randrange(1, 2 ** 31), "n": n, "pcrash": rng.choice([0.0, 0.01, 0.03]),
                      "pcrashp": rng.choice([0.05, 0.15, 0.3]), "pwrong": 0.1}}
+    if nr >= 3 and ef and rng.random() < 0.3:
+        # failover sync that starts from a stale version (restart of the sync, stale answers with >= 2 backups)
+        k = inp[0]["key"]
+        case["input"] = [{"typ": 3, "key": k, "value": "w1"}, {"typ": 3, "key": k, "value": "w2"}] + inp
+        case["steps"] = restart_prefix(rng, nr, nc)
+    return case
+
+
+def restart_prefix(rng, nr, nc):
+    """explicit prefix (nr >= 3): Put 1 is fully replicated; the primary crashes while replicating Put 2 after
+    sending it to replicas 2..j; replicas 3..j apply it while replica 2 has not looked at it yet, so that
+    replica 2's failover sync starts from the old version and is restarted by a backup's answer"""
+    c = nr + 1
+    st = []
+    def rep(p, n, alt=0, fail=0):
+        st.extend([[p, alt, fail]] * n)
+    for r in range(1, nr + 1):
+        rep(r, 2)
+    rep(c, 2); rep(1, 2); rep(1, nr + 1)
+    for r in range(2, nr + 1):
+        rep(r, 2)
+    rep(1, nr); rep(1, 3); rep(c, 1)
+    rep(c, 2); rep(1, 2); rep(1, 1)
+    j = rng.randint(3, nr)
+    for i in range(2, j):
+        rep(1, 1)
+    rep(1, 1, 0, 1)          # send to j and crash
+    rep(1, 1)                # failLabel
+    for r in range(3, j + 1):
+        rep(r, 3); rep(r, 1, 1, 0)
+    return st
 
 
 def corpus():
